@@ -443,3 +443,49 @@ def derived_frame_writers(facts):
         if any(t["callee"]["name"] in ("write_all", "write", "write_vectored") for _, t in cb.calls()):
             out.add(cb.path[:-len("::{closure#0}")] if cb.path.endswith("::{closure#0}") else cb.path)
     return out
+
+
+def _subst_locals(e, m):
+    if isinstance(e, tuple):
+        if len(e) >= 2 and e[0] == "local" and e[1] in m:
+            return m[e[1]]
+        return tuple(_subst_locals(x, m) for x in e)
+    return e
+
+
+def value_alternatives(body, sym, facts, bb, fs, limit=8):
+    """Fact lists at block bb with merged locals resolved: a comparison against a variable that has several reaching
+    definitions (`let limit = opt.unwrap_or(MAX)` once the combinator is a match) says something different for each of them.
+    One fact list per feasible combination of definitions, each with the merged local replaced by that definition's value
+    and the facts holding where the definition was made added.  Without merged locals in the facts: [fs]."""
+    from analysis.sym import split_eval
+    from analysis.guards import infeasible
+    locs = sorted({x[1] for f in fs for x in walk(f["expr"]) if isinstance(x, tuple) and len(x) >= 2 and x[0] == "local" and isinstance(x[1], int)})
+    locs = [l for l in locs if len(body.defs_of(l)) > 1]
+    if not locs:
+        return [fs]
+    alts = split_eval(sym, bb, 0, lambda v_: tuple(v_.local(l) for l in locs), limit=limit)
+    if not alts:
+        return [fs]
+    out = []
+    for ch, vals in alts:
+        m = dict(zip(locs, vals))
+        cur = []
+        for f in fs:
+            e2 = _subst_locals(f["expr"], m)
+            g = dict(f)
+            if e2 != f["expr"]:
+                g["expr"] = e2
+                g["text"] = "%s is %s" % (render(e2), f["val"])
+            cur.append(g)
+        have = {(repr(f["expr"]), repr(f["val"])) for f in cur}
+        for pt in ch.values():
+            if pt[0] >= 0:
+                for f in facts_at(body, sym, facts, pt[0]):
+                    k = (repr(f["expr"]), repr(f["val"]))
+                    if k not in have:
+                        have.add(k)
+                        cur.append(f)
+        if not infeasible(cur, facts.adts):
+            out.append(cur)
+    return out or [fs]
